@@ -430,7 +430,7 @@ Definition merged_def (old : option compiler) (d : udef) : compiler :=
   | Some c, UComp o r m p =>
       {| c_alias := None;
          c_opts := c_opts c ++ odflt o;
-         c_rules := c_rules c ++ odflt r;
+         c_rules := fold_left add_rule (odflt r) (c_rules c);
          c_modes := fold_left (fun d m => aset (m_name m) m d) (odflt m) (c_modes c);
          c_passes := fold_left (fun d p => aset (p_name p) p d) (odflt p) (c_passes c) |}
   end.
